@@ -117,10 +117,11 @@ func semRun(c *Ctx, flavour string, n int, prop string) {
 		}
 		line := semLine(200000, ast, ugo.Map{}, args, src)
 		if class == "freshvar" {
-			// family name: declaring form, update, what the implementation answered, context — a known
-			// finding pins the first three, so another wrong answer of the same form is a new violation
+			// family name: declaring form, context, update, what the implementation answered — a known
+			// finding pins all four, so the same form in another context or with another wrong answer is
+			// a new violation
 			d, cx, after := gen.FreshVarParts(i)
-			class = fmt.Sprintf("freshvar:%s:a%d:i%06x:%s", d, after, hashStr(implNo)&0xffffff, cx)
+			class = fmt.Sprintf("freshvar:%s:%s:a%d:i%06x", d, cx, after, hashStr(implNo)&0xffffff)
 		}
 		c.Add(Case{Line: line, Impl: implNo, Key: fmt.Sprintf("%s/%x", cls, hashStr(implNo)%4093), Class: class, Prop: prop})
 		// C01: the optimized program must behave like the unoptimized one (same oracle, other compile path)
